@@ -8,9 +8,10 @@ CONSTANTS
   Verbs = {"worker", "workerBad", "query", "load", "stopHard", "stopSoft"}
   T = 1
   Parts = 1
+  FileCodes = {1}
   MaxDup = 1
   MaxProc = 1
   MaxQueue = 2
   Deviations = {}
-INVARIANTS TypeOK P_C09a_AtMostOneFinal P_C09b_OkMeansAllAcked P_C09d_RightClient P_C09e_NoStaleInFlight P_C09_AnswersFollowTasks
+INVARIANTS TypeOK P_C09a_AtMostOneFinal P_C09b_OkMeansAllAcked P_C09d_RightClient P_C09e_NoStaleInFlight P_C09f_NoAnswerDropped P_C09_AnswersFollowTasks
 CHECK_DEADLOCK FALSE
